@@ -287,3 +287,16 @@ def hash_based(seqs: OneOf(Seq(Str, "list"), Seq(Str, "ndarray"), SeriesT(Str, "
     returns(search_output(neighbor_triplets(
         seqs, seqs, lambda a, b: is_neighbor(a, b, custom_distance, max_edits, max_custom_distance),
         lambda a, b: neighbor_value(a, b, custom_distance), True), output_type, seqs, None), assume_only=True)
+
+
+@contract("pyrepseq.nn._lookup", inline=True, props=["C14"])
+def _lookup():
+    note("five-line table look-up helper: inlined into nearest_neighbor_tcrdist")
+
+
+@contract("pyrepseq.nn.nearest_neighbor_tcrdist", props=["C14"], scope="tcrdist_calls")
+def nearest_neighbor_tcrdist(df: TableT(["CDR3A", "TRAV", "CDR3B", "TRBV"], min_rows=1), chain: OneOf(Const("beta"), Const("alpha"), Const("both")), max_edits: Pos,
+                             edit_on_trimmed: OneOf(Const(True), Const(False)), max_tcrdist: RealT(lo=0)):
+    # (the CDR3 column holds strings; nearest_neighbor's contract applies to the list made from it)
+    raises(None)
+    ensures(is_empty_result(result) == bag_is_empty(local("neighbors")), name="post[empty result exactly when no candidate pair]")
